@@ -1,9 +1,14 @@
-(* Proofs/FrontMatterProofs.v — lemmas about Model/FrontMatter.v (split_off_front_matter) and
-   Spec/FrontMatterSpec.v.  Part 1: structure of the model (index arithmetic and slice checks
-   erased), soundness, totality on valid UTF-8.  Part 2: refutations of model = spec.  Part 3: the
-   conditional equality with the line-based spec. *)
+(* Proofs/FrontMatterProofs.v — Model/FrontMatter.v (split_off_front_matter after the repair `fix: front matter
+   is cut by lines`) IS the line-based specification Spec/FrontMatterSpec.v.
+   Part 1: list and UTF-8 facts (char boundaries after an ASCII byte).
+   Part 2: `okP` — a result is the expected value, or a Panic that comes with a proof that some line start of
+           the input is not a char boundary (impossible in a Rust str); fm_line_at against `cut_line`.
+   Part 3: the loop against `find_closer`, the whole function against `spec_split`.
+   Part 4: consequences: equality on UTF-8, soundness, the old refutation witnesses now split as specified. *)
 From Coq Require Import List NArith Bool Lia Arith.
-From V Require Import Base.Bytes Base.Res Model.FrontMatter Spec.FrontMatterSpec Spec.EscapeSpec.
+From V Require Import Base.Bytes Base.Res Model.FrontMatter Spec.FrontMatterSpec Spec.EscapeSpec
+  Proofs.FrontMatterSpecProofs.
+From V Require Model.Strings.
 Import ListNotations.
 From Coq Require Import Strings.String.
 Local Open Scope string_scope.
@@ -24,110 +29,22 @@ Proof. rewrite skipn_app, skipn_all, Nat.sub_diag. reflexivity. Qed.
 Lemma firstn_app_len {A} (a b : list A) : firstn (List.length a) (a ++ b) = a.
 Proof. rewrite firstn_app, firstn_all, Nat.sub_diag. simpl. apply app_nil_r. Qed.
 
-(* find: a hit is an occurrence *)
-Lemma find_some s p n : find s p = Some n ->
-  s = firstn n s ++ p ++ skipn (n + List.length p) s.
+Lemma app_eq_len {A} (a b c d : list A) : a ++ b = c ++ d -> List.length a = List.length c -> a = c /\ b = d.
 Proof.
-  revert n; induction s as [|b s IH]; intros n; simpl.
-  - destruct (starts_with [] p) eqn:E; [|discriminate].
-    intros [= <-]. destruct p; [reflexivity | discriminate].
-  - destruct (starts_with (b :: s) p) eqn:E.
-    + intros [= <-]. simpl. apply starts_with_skipn. exact E.
-    + destruct (find s p) as [m|] eqn:F; [|discriminate].
-      intros [= <-]. simpl. f_equal. apply IH. reflexivity.
+  revert c. induction a as [|x a IH]; intros [|y c] H L; try discriminate L.
+  - split; [reflexivity | exact H].
+  - cbn [app] in H. injection H as -> H. cbn [List.length] in L. injection L as L.
+    destruct (IH c H L) as [-> ->]. split; reflexivity.
 Qed.
 
-Lemma find_some_len s p n : find s p = Some n -> n + List.length p <= List.length s.
+Lemma trim_is_strip_bom s : trim_start_match s fm_bom = strip_bom s.
 Proof.
-  revert n; induction s as [|b s IH]; intros n; cbn [find].
-  - destruct (starts_with [] p) eqn:E; [|discriminate].
-    intros [= <-]. destruct p; [simpl; lia | discriminate].
-  - destruct (starts_with (b :: s) p) eqn:E.
-    + intros [= <-]. apply starts_with_app in E. destruct E as [r E]. rewrite E, app_length. lia.
-    + destruct (find s p) as [m|] eqn:F; [|discriminate].
-      intros [= <-]. specialize (IH m eq_refl). cbn [List.length]. lia.
+  unfold trim_start_match, strip_prefix, strip_bom. change spec_bom with fm_bom.
+  destruct (starts_with s fm_bom); reflexivity.
 Qed.
 
 (* ------------------------------------------------------------------------------------------------ *)
-(* Part 1b: the structural reading of the model *)
-
-Definition cut_eol (t : bytes) : option (bytes * bytes) :=
-  if starts_with t fm_lf then Some (fm_lf, skipn 1 t)
-  else if starts_with t fm_crlf then Some (fm_crlf, skipn 2 t)
-  else None.
-
-Lemma cut_eol_some t e r : cut_eol t = Some (e, r) -> t = e ++ r /\ (e = fm_lf \/ e = fm_crlf).
-Proof.
-  unfold cut_eol. destruct (starts_with t fm_lf) eqn:E1.
-  - intros [= <- <-]. split; [apply (starts_with_skipn _ _ E1) | left; reflexivity].
-  - destruct (starts_with t fm_crlf) eqn:E2; [|discriminate].
-    intros [= <- <-]. split; [apply (starts_with_skipn _ _ E2) | right; reflexivity].
-Qed.
-
-Lemma line_end_len_cut t :
-  line_end_len t = match cut_eol t with Some (e, _) => Some (List.length e) | None => None end.
-Proof.
-  unfold line_end_len, cut_eol. destruct (starts_with t fm_lf); [reflexivity|].
-  destruct (starts_with t fm_crlf); reflexivity.
-Qed.
-
-Definition chain (t1 d : bytes) : option nat :=
-  or_else (find t1 (fm_lf ++ d ++ fm_crlf))
-    (fun _ => or_else (find t1 (fm_lf ++ d ++ fm_lf))
-    (fun _ => find t1 (fm_lf ++ d))).
-
-Lemma chain_some t1 d n : chain t1 d = Some n ->
-  t1 = firstn n t1 ++ fm_lf ++ d ++ skipn (n + 1 + List.length d) t1.
-Proof.
-  unfold chain, or_else.
-  assert (G : forall x, find t1 (fm_lf ++ d ++ x) = Some n ->
-              t1 = firstn n t1 ++ fm_lf ++ d ++ skipn (n + 1 + List.length d) t1).
-  { intros x H. pose proof (find_some_len _ _ _ H) as L. apply find_some in H.
-    rewrite !app_length in *. simpl List.length in *.
-    set (r := skipn (n + (1 + (List.length d + List.length x))) t1) in *.
-    assert (E : skipn (n + 1 + List.length d) t1 = x ++ r).
-    { rewrite H at 1.
-      replace (n + 1 + List.length d) with (List.length (firstn n t1 ++ fm_lf ++ d)).
-      - rewrite (app_assoc fm_lf d), (app_assoc (firstn n t1)), <- (app_assoc _ x r).
-        rewrite <- (app_assoc (firstn n t1)). rewrite (app_assoc (firstn n t1) (fm_lf ++ d)).
-        apply skipn_app_len.
-      - rewrite !app_length, firstn_length_le by lia. simpl. lia. }
-    rewrite E. rewrite H at 1. rewrite <- !app_assoc. reflexivity. }
-  destruct (find t1 (fm_lf ++ d ++ fm_crlf)) eqn:F1.
-  - intros [= ->]. apply (G fm_crlf F1).
-  - destruct (find t1 (fm_lf ++ d ++ fm_lf)) eqn:F2.
-    + intros [= ->]. apply (G fm_lf F2).
-    + intro F3. apply (G []). rewrite app_nil_r. exact F3.
-Qed.
-
-(* the model with indices and checks erased *)
-Definition core (s d : bytes) : option (bytes * bytes) :=
-  match strip_prefix s d with
-  | None => None
-  | Some t =>
-    match cut_eol t with
-    | None => None
-    | Some (e0, t1) =>
-      match chain t1 d with
-      | None => None
-      | Some n =>
-        let pre := firstn n t1 in
-        let t2 := skipn (n + 1 + List.length d) t1 in
-        match t2 with
-        | [] => Some (s, [])
-        | _ :: _ =>
-          match cut_eol t2 with
-          | None => None
-          | Some (e2, t3) =>
-            match cut_eol t3 with
-            | Some (e3, t4) => Some (d ++ e0 ++ pre ++ fm_lf ++ d ++ e2 ++ e3, t4)
-            | None => Some (d ++ e0 ++ pre ++ fm_lf ++ d ++ e2, t3)
-            end
-          end
-        end
-      end
-    end
-  end.
+(* Part 1b: char boundaries *)
 
 (* is the index |a| a char boundary of a ++ b *)
 Definition bnd (a b : bytes) : bool :=
@@ -155,191 +72,8 @@ Lemma slice_to_app a b :
   if bnd a b then Ok a else Panic "strings.rs:split_off_front_matter:slice_to".
 Proof. unfold slice_to. rewrite boundary_app, firstn_app_len. reflexivity. Qed.
 
-(* every slice the function takes, as (prefix, suffix) pairs of the stripped input *)
-Definition all_bnd (s d : bytes) : bool :=
-  match strip_prefix s d with
-  | None => true
-  | Some t =>
-    bnd d t &&
-    match cut_eol t with
-    | None => true
-    | Some (e0, t1) =>
-      bnd (d ++ e0) t1 &&
-      match chain t1 d with
-      | None => true
-      | Some n =>
-        let pre := firstn n t1 in
-        let t2 := skipn (n + 1 + List.length d) t1 in
-        match t2 with
-        | [] => true
-        | _ :: _ =>
-          bnd (d ++ e0 ++ pre ++ fm_lf ++ d) t2 &&
-          match cut_eol t2 with
-          | None => true
-          | Some (e2, t3) =>
-            bnd (d ++ e0 ++ pre ++ fm_lf ++ d ++ e2) t3 &&
-            match cut_eol t3 with
-            | Some (e3, t4) => bnd (d ++ e0 ++ pre ++ fm_lf ++ d ++ e2 ++ e3) t4
-            | None => true
-            end
-          end
-        end
-      end
-    end
-  end.
-
-Lemma strip_prefix_some s d t : strip_prefix s d = Some t -> s = d ++ t.
-Proof.
-  unfold strip_prefix. destruct (starts_with s d) eqn:E; [|discriminate].
-  intros [= <-]. apply starts_with_skipn. exact E.
-Qed.
-
-Lemma slice_from_eq s a b n : s = a ++ b -> n = List.length a ->
-  slice_from s n = if bnd a b then Ok b else Panic "strings.rs:split_off_front_matter:slice_from".
-Proof. intros -> ->. apply slice_from_app. Qed.
-
-Lemma slice_to_eq s a b n : s = a ++ b -> n = List.length a ->
-  slice_to s n = if bnd a b then Ok a else Panic "strings.rs:split_off_front_matter:slice_to".
-Proof. intros -> ->. apply slice_to_app. Qed.
-
-(* The model is `core` guarded by the boundary checks: it returns Ok (core ..) when every slice index
-   is a char boundary and panics otherwise. *)
-Lemma split_struct s0 d :
-  let s := trim_start_match s0 fm_bom in
-  if all_bnd s d then split_off_front_matter s0 d = Ok (core s d)
-  else exists site, split_off_front_matter s0 d = Panic site.
-Proof.
-  cbv zeta. unfold split_off_front_matter, all_bnd, core.
-  remember (trim_start_match s0 fm_bom) as s eqn:Heqs. clear Heqs s0.
-  unfold strip_prefix. destruct (starts_with s d) eqn:Esd; cbn [negb]; [|reflexivity].
-  pose proof (starts_with_skipn _ _ Esd) as Hs.
-  remember (skipn (List.length d) s) as t eqn:Heqt. clear Heqt.
-  rewrite (slice_from_eq s d t) by (assumption || reflexivity).
-  destruct (bnd d t); cbn [andb bind]; [|eexists; reflexivity].
-  rewrite line_end_len_cut. destruct (cut_eol t) as [[e0 t1]|] eqn:Ec0; [|reflexivity].
-  apply cut_eol_some in Ec0. destruct Ec0 as [Ht He0].
-  assert (Hs1 : s = (d ++ e0) ++ t1) by (rewrite <- app_assoc, <- Ht; exact Hs).
-  rewrite (slice_from_eq s (d ++ e0) t1) by (assumption || apply eq_sym, app_length).
-  destruct (bnd (d ++ e0) t1); cbn [andb bind]; [|eexists; reflexivity].
-  fold (chain t1 d). destruct (chain t1 d) as [n|] eqn:Ech; [|reflexivity].
-  pose proof (chain_some _ _ _ Ech) as Ht1.
-  assert (Ln : List.length (firstn n t1) = n).
-  { assert (L : List.length t1 = List.length (firstn n t1 ++ fm_lf ++ d ++ skipn (n + 1 + List.length d) t1))
-      by (rewrite <- Ht1; reflexivity).
-    destruct (Nat.le_gt_cases n (List.length t1)); [apply firstn_length_le; assumption|].
-    rewrite !app_length in L. rewrite firstn_all2 in L by lia. simpl in L. lia. }
-  remember (firstn n t1) as pre eqn:Heqpre. clear Heqpre.
-  remember (skipn (n + 1 + List.length d) t1) as t2 eqn:Heqt2. clear Heqt2.
-  assert (Hs2 : s = (d ++ e0 ++ pre ++ fm_lf ++ d) ++ t2).
-  { rewrite Hs1, Ht1. rewrite <- !app_assoc. reflexivity. }
-  assert (L2 : List.length d + List.length e0 + (n + 1 + List.length d) = List.length (d ++ e0 ++ pre ++ fm_lf ++ d))
-    by (rewrite !app_length; simpl; lia).
-  rewrite L2.
-  destruct t2 as [|x2 t2'] eqn:Et2.
-  - rewrite Hs2. rewrite app_nil_r, Nat.eqb_refl. reflexivity.
-  - rewrite <- Et2 in *.
-    replace (Nat.eqb (List.length (d ++ e0 ++ pre ++ fm_lf ++ d)) (List.length s)) with false.
-    2:{ symmetry. apply Nat.eqb_neq. rewrite Hs2. rewrite (app_length _ t2), Et2. simpl. lia. }
-    rewrite (slice_from_eq s (d ++ e0 ++ pre ++ fm_lf ++ d) t2) by (assumption || reflexivity).
-    destruct (bnd (d ++ e0 ++ pre ++ fm_lf ++ d) t2); cbn [andb bind]; [|eexists; reflexivity].
-    rewrite line_end_len_cut. destruct (cut_eol t2) as [[e2 t3]|] eqn:Ec2; [|reflexivity].
-    apply cut_eol_some in Ec2. destruct Ec2 as [Ht2 He2].
-    assert (Hs3 : s = (d ++ e0 ++ pre ++ fm_lf ++ d ++ e2) ++ t3).
-    { rewrite Hs2, Ht2. rewrite <- !app_assoc. reflexivity. }
-    assert (L3 : List.length (d ++ e0 ++ pre ++ fm_lf ++ d) + List.length e2 = List.length (d ++ e0 ++ pre ++ fm_lf ++ d ++ e2))
-      by (rewrite !app_length; simpl; lia).
-    rewrite L3.
-    rewrite (slice_from_eq s (d ++ e0 ++ pre ++ fm_lf ++ d ++ e2) t3) by (assumption || reflexivity).
-    destruct (bnd (d ++ e0 ++ pre ++ fm_lf ++ d ++ e2) t3) eqn:B3; cbn [andb bind]; [|eexists; reflexivity].
-    rewrite line_end_len_cut. destruct (cut_eol t3) as [[e3 t4]|] eqn:Ec3.
-    + apply cut_eol_some in Ec3. destruct Ec3 as [Ht3 He3].
-      assert (Hs4 : s = (d ++ e0 ++ pre ++ fm_lf ++ d ++ e2 ++ e3) ++ t4).
-      { rewrite Hs3, Ht3. rewrite <- !app_assoc. reflexivity. }
-      assert (L4 : List.length (d ++ e0 ++ pre ++ fm_lf ++ d ++ e2) + List.length e3 = List.length (d ++ e0 ++ pre ++ fm_lf ++ d ++ e2 ++ e3))
-        by (rewrite !app_length; simpl; lia).
-      rewrite L4.
-      rewrite (slice_to_eq s (d ++ e0 ++ pre ++ fm_lf ++ d ++ e2 ++ e3) t4) by (assumption || reflexivity).
-      rewrite (slice_from_eq s (d ++ e0 ++ pre ++ fm_lf ++ d ++ e2 ++ e3) t4) by (assumption || reflexivity).
-      destruct (bnd (d ++ e0 ++ pre ++ fm_lf ++ d ++ e2 ++ e3) t4); cbn [bind]; [reflexivity | eexists; reflexivity].
-    + rewrite Nat.add_0_r.
-      rewrite (slice_to_eq s (d ++ e0 ++ pre ++ fm_lf ++ d ++ e2) t3) by (assumption || reflexivity).
-      rewrite (slice_from_eq s (d ++ e0 ++ pre ++ fm_lf ++ d ++ e2) t3) by (assumption || reflexivity).
-      rewrite B3. reflexivity.
-Qed.
-
-Lemma split_ok_core s0 d r :
-  split_off_front_matter s0 d = Ok r -> r = core (trim_start_match s0 fm_bom) d.
-Proof.
-  intro H. pose proof (split_struct s0 d) as S. cbv zeta in S.
-  destruct (all_bnd (trim_start_match s0 fm_bom) d).
-  - rewrite H in S. congruence.
-  - destruct S as [site S]. rewrite H in S. discriminate.
-Qed.
-
-Lemma split_never_out_of_fuel s0 d : split_off_front_matter s0 d <> OutOfFuel.
-Proof.
-  pose proof (split_struct s0 d) as S. cbv zeta in S.
-  destruct (all_bnd (trim_start_match s0 fm_bom) d); [|destruct S as [site S]]; rewrite S; discriminate.
-Qed.
-
-Lemma trim_is_strip_bom s : trim_start_match s fm_bom = strip_bom s.
-Proof.
-  unfold trim_start_match, strip_prefix, strip_bom. change spec_bom with fm_bom.
-  destruct (starts_with s fm_bom); reflexivity.
-Qed.
-
 (* ------------------------------------------------------------------------------------------------ *)
-(* Part 1c: soundness *)
-
-Definition blank_tail (t : bytes) : bool :=
-  existsb (bytes_eqb t)
-    [ []; fm_lf; fm_crlf; fm_lf ++ fm_lf; fm_lf ++ fm_crlf; fm_crlf ++ fm_lf; fm_crlf ++ fm_crlf ].
-
-Definition fm_shape (d fm : bytes) : Prop :=
-  exists e0 body tail, (e0 = fm_lf \/ e0 = fm_crlf) /\ blank_tail tail = true /\
-    fm = d ++ e0 ++ body ++ fm_lf ++ d ++ tail.
-
-Ltac assoc := unfold fm_lf, fm_crlf; repeat first [rewrite <- app_assoc | rewrite <- app_comm_cons | progress cbn [app]].
-
-Lemma core_sound s d fm rest : core s d = Some (fm, rest) -> s = fm ++ rest /\ fm_shape d fm.
-Proof.
-  unfold core. destruct (strip_prefix s d) as [t|] eqn:E0; [|discriminate].
-  apply strip_prefix_some in E0.
-  destruct (cut_eol t) as [[e0 t1]|] eqn:E1; [|discriminate].
-  apply cut_eol_some in E1. destruct E1 as [Ht He0].
-  destruct (chain t1 d) as [n|] eqn:E2; [|discriminate].
-  apply chain_some in E2.
-  remember (firstn n t1) as pre eqn:Hp. clear Hp.
-  remember (skipn (n + 1 + List.length d) t1) as t2 eqn:Ht2. clear Ht2.
-  assert (Hs : s = d ++ e0 ++ pre ++ fm_lf ++ d ++ t2) by (rewrite E0, Ht, E2; reflexivity).
-  destruct t2 as [|x t2'] eqn:Et2.
-  - intros [= <- <-]. split; [symmetry; apply app_nil_r|].
-    exists e0, pre, []. split; [exact He0|]. split; [reflexivity | exact Hs].
-  - rewrite <- Et2 in *. clear Et2.
-    destruct (cut_eol t2) as [[e2 t3]|] eqn:E3; [|discriminate].
-    apply cut_eol_some in E3. destruct E3 as [Ht2 He2].
-    destruct (cut_eol t3) as [[e3 t4]|] eqn:E4.
-    + apply cut_eol_some in E4. destruct E4 as [Ht3 He3].
-      intros [= <- <-]. split.
-      * rewrite Hs, Ht2, Ht3. assoc. reflexivity.
-      * exists e0, pre, (e2 ++ e3). split; [exact He0|]. split; [|reflexivity].
-        destruct He2 as [-> | ->], He3 as [-> | ->]; reflexivity.
-    + intros [= <- <-]. split.
-      * rewrite Hs, Ht2. assoc. reflexivity.
-      * exists e0, pre, e2. split; [exact He0|]. split; [|reflexivity].
-        destruct He2 as [-> | ->]; reflexivity.
-Qed.
-
-Lemma split_sound s d fm rest :
-  split_off_front_matter s d = Ok (Some (fm, rest)) ->
-  strip_bom s = fm ++ rest /\ fm_shape d fm.
-Proof.
-  intro H. apply split_ok_core in H. symmetry in H. apply core_sound in H.
-  rewrite trim_is_strip_bom in H. exact H.
-Qed.
-
-(* ------------------------------------------------------------------------------------------------ *)
-(* Part 1d: no panic on valid UTF-8 (Rust `str` arguments) *)
+(* Part 1c: UTF-8 (also used by Proofs/BlocksTotal.v) *)
 
 Lemma utf8_run_app_suffix a : forall st b,
   utf8_run st (a ++ b) = true -> utf8_run st a = true -> utf8_run U0 b = true.
@@ -392,13 +126,6 @@ Proof.
   destruct (ustep U0 x); [|intro; discriminate]. intros _. exact G.
 Qed.
 
-Lemma cut_eol_valid t e r : cut_eol t = Some (e, r) -> utf8_valid t = true -> utf8_valid r = true.
-Proof.
-  intros H V. apply cut_eol_some in H. destruct H as [-> [-> | ->]].
-  - apply (utf8_after_ascii [] U0 x0a r eq_refl V).
-  - apply (utf8_after_ascii [x0d] U0 x0a r eq_refl V).
-Qed.
-
 Lemma trim_valid s : utf8_valid s = true -> utf8_valid (trim_start_match s fm_bom) = true.
 Proof.
   unfold trim_start_match, strip_prefix. destruct (starts_with s fm_bom) eqn:E; [|tauto].
@@ -406,88 +133,396 @@ Proof.
   apply (utf8_suffix fm_bom); [exact V | reflexivity].
 Qed.
 
-Lemma all_bnd_valid s d : utf8_valid s = true -> utf8_valid d = true -> all_bnd s d = true.
+(* ------------------------------------------------------------------------------------------------ *)
+(* Part 2a: line starts, bad starts, okP *)
+
+(* p is empty or ends with an ASCII byte: the position after it is a char boundary of every Rust str *)
+Definition line_start (p : bytes) : Prop := p = [] \/ exists a x, p = a ++ [x] /\ is_ascii x = true.
+
+(* some position right after an ASCII byte of s is not a char boundary: s is not UTF-8 *)
+Definition bad_start (s : bytes) : Prop :=
+  exists a x b, s = a ++ x :: b /\ is_ascii x = true /\ bnd (a ++ [x]) b = false.
+
+Lemma bad_start_not_utf8 s : bad_start s -> utf8_valid s = true -> False.
 Proof.
-  intros Vs Vd. unfold all_bnd.
-  destruct (strip_prefix s d) as [t|] eqn:E0; [|reflexivity].
-  apply strip_prefix_some in E0.
-  assert (Vt : utf8_valid t = true) by (apply (utf8_suffix d); [rewrite <- E0; exact Vs | exact Vd]).
-  rewrite (bnd_valid d t Vt). cbn [andb].
-  destruct (cut_eol t) as [[e0 t1]|] eqn:E1; [|reflexivity].
-  pose proof (cut_eol_valid _ _ _ E1 Vt) as Vt1.
-  rewrite (bnd_valid _ t1 Vt1). cbn [andb].
-  destruct (chain t1 d) as [n|] eqn:E2; [|reflexivity].
-  apply chain_some in E2.
-  remember (firstn n t1) as pre eqn:Hp. clear Hp.
-  remember (skipn (n + 1 + List.length d) t1) as t2 eqn:Ht2. clear Ht2.
-  assert (Vt2 : utf8_valid t2 = true).
-  { rewrite E2 in Vt1. apply (utf8_after_ascii pre U0 x0a (d ++ t2) eq_refl) in Vt1.
-    apply (utf8_suffix d); assumption. }
-  destruct t2 as [|x t2'] eqn:Et2; [reflexivity|]. rewrite <- Et2 in *. clear Et2.
-  rewrite (bnd_valid _ t2 Vt2). cbn [andb].
-  destruct (cut_eol t2) as [[e2 t3]|] eqn:E3; [|reflexivity].
-  pose proof (cut_eol_valid _ _ _ E3 Vt2) as Vt3.
-  rewrite (bnd_valid _ t3 Vt3). cbn [andb].
-  destruct (cut_eol t3) as [[e3 t4]|] eqn:E4; [|reflexivity].
-  apply bnd_valid. apply (cut_eol_valid _ _ _ E4 Vt3).
+  intros [a [x [b [-> [Hx Hb]]]]] V. apply (utf8_after_ascii a U0 x b Hx) in V.
+  rewrite (bnd_valid _ b V) in Hb. discriminate.
 Qed.
 
-Lemma split_total s d : utf8_valid s = true -> utf8_valid d = true ->
-  split_off_front_matter s d = Ok (core (trim_start_match s fm_bom) d).
+Lemma bnd_line_start p t : line_start p \/ t = [] -> bnd p t = true \/ bad_start (p ++ t).
 Proof.
-  intros Vs Vd. pose proof (split_struct s d) as S. cbv zeta in S.
-  rewrite (all_bnd_valid _ d (trim_valid s Vs) Vd) in S. exact S.
+  intros [[-> | [a [x [-> Hx]]]] | ->].
+  - left. reflexivity.
+  - destruct (bnd (a ++ [x]) t) eqn:E; [left; reflexivity|]. right.
+    exists a, x, t. split; [rewrite <- app_assoc; reflexivity | split; assumption].
+  - left. unfold bnd. destruct p; reflexivity.
 Qed.
 
-(* the checks are not vacuous: on byte strings that are not UTF-8 the model does panic *)
-Lemma split_panics_off_boundary :
-  exists s d site, split_off_front_matter s d = Panic site.
-Proof. exists [xc3; xa9; x0a], [xc3]. eexists. vm_compute. reflexivity. Qed.
+Lemma line_start_eol p c e : terminated e = true -> line_start (p ++ c ++ eol_bytes e).
+Proof.
+  intros T. right. destruct e; try discriminate T; cbn [eol_bytes].
+  - exists (p ++ c), x0a. split; [rewrite app_assoc; reflexivity | reflexivity].
+  - exists (p ++ c ++ [x0d]), x0a. split; [|reflexivity].
+    rewrite <- !app_assoc. reflexivity.
+  - exists (p ++ c), x0d. split; [rewrite app_assoc; reflexivity | reflexivity].
+Qed.
+
+(* r is Ok v with Q v, or a Panic on an input that is not UTF-8 *)
+Definition okP {A} (s : bytes) (r : res A) (Q : A -> Prop) : Prop :=
+  (exists v, r = Ok v /\ Q v) \/ (bad_start s /\ exists site, r = Panic site).
+
+Lemma okP_bind {A B} s (r : res A) (f : A -> res B) (Q : A -> Prop) (Q' : B -> Prop) :
+  okP s r Q -> (forall v, Q v -> okP s (f v) Q') -> okP s (bind r f) Q'.
+Proof.
+  intros [[v [-> Hv]] | [Hb [site ->]]] H.
+  - exact (H v Hv).
+  - right. split; [exact Hb | exists site; reflexivity].
+Qed.
+
+Lemma okP_weaken {A} s (r : res A) (Q Q' : A -> Prop) :
+  (forall v, Q v -> Q' v) -> okP s r Q -> okP s r Q'.
+Proof.
+  intros H [[v [-> Hv]] | R]; [left; exists v; split; [reflexivity | exact (H v Hv)] | right; exact R].
+Qed.
+
+Lemma okP_utf8 {A} s (r : res A) Q : okP s r Q -> utf8_valid s = true -> exists v, r = Ok v /\ Q v.
+Proof. intros [H | [Hb _]] V; [exact H | destruct (bad_start_not_utf8 s Hb V)]. Qed.
+
+Lemma okP_ok {A} s (r : res A) Q v : okP s r Q -> r = Ok v -> Q v.
+Proof.
+  intros [[v' [-> Hv]] | [_ [site ->]]] E; [injection E as <-; exact Hv | discriminate E].
+Qed.
 
 (* ------------------------------------------------------------------------------------------------ *)
-(* Part 2: model = spec is false.  Four concrete witnesses, each inside one class of fm_class. *)
+(* Part 2b: fm_line_at is cut_line *)
 
+Lemma is_line_end_char_nl b : Model.Strings.is_line_end_char b = is_nl b.
+Proof. destruct b; reflexivity. Qed.
+
+Lemma scan_line_end_cut : forall t n c e r, cut_line t = (c, e, r) ->
+  scan_line_end t n = n + List.length c.
+Proof.
+  induction t as [|b t IH]; intros n c e r H.
+  - injection H as <- <- <-. cbn. lia.
+  - cbn [scan_line_end cut_line] in *. rewrite is_line_end_char_nl. unfold is_nl.
+    destruct (beqb b x0a) eqn:Ea. { injection H as <- <- <-. cbn. lia. }
+    destruct (beqb b x0d) eqn:Ed.
+    { destruct t as [|b2 t']; [|destruct (beqb b2 x0a)]; injection H as <- <- <-; cbn; lia. }
+    cbn [orb]. destruct (cut_line t) as [[c1 e1] r1] eqn:C. injection H as <- <- <-.
+    rewrite (IH (S n) c1 e1 r1 eq_refl). cbn [List.length]. lia.
+Qed.
+
+Lemma eol_starts_crlf e r : (e = EEOF -> r = []) -> (e = ECR -> starts_with r fm_lf = false) ->
+  starts_with (eol_bytes e ++ r) fm_crlf = match e with ECRLF => true | _ => false end.
+Proof.
+  intros H0 H1. destruct e; cbn [eol_bytes app].
+  - reflexivity.
+  - reflexivity.
+  - specialize (H1 eq_refl). unfold fm_crlf, fm_lf in *. cbn [starts_with] in *.
+    destruct r as [|b r]; [reflexivity|]. rewrite andb_true_r in H1. cbn [starts_with]. rewrite H1. reflexivity.
+  - rewrite (H0 eq_refl). reflexivity.
+Qed.
+
+Lemma bnd_eol p e r : (e = EEOF -> r = []) -> bnd p (eol_bytes e ++ r) = true.
+Proof.
+  intro H. unfold bnd. destruct p; [reflexivity|]. destruct e; cbn [eol_bytes app]; try reflexivity.
+  rewrite (H eq_refl). reflexivity.
+Qed.
+
+(* the line of p ++ t at |p|: the first line of t, and the offset after its terminator; the only check that
+   can fail is the char boundary at |p| *)
+Lemma line_at_app p t c e r : cut_line t = (c, e, r) ->
+  fm_line_at (p ++ t) (List.length p) =
+  if bnd p t then Ok (c, List.length p + List.length c + List.length (eol_bytes e))
+  else Panic "strings.rs:line_at:slice".
+Proof.
+  intro C. destruct (cut_line_facts _ _ _ _ C) as [Et [_ [He Hr]]].
+  unfold fm_line_at. rewrite skipn_app_len, (scan_line_end_cut t _ c e r C).
+  assert (Es : p ++ t = (p ++ c) ++ eol_bytes e ++ r) by (rewrite Et, <- app_assoc; reflexivity).
+  assert (El : List.length p + List.length c = List.length (p ++ c)) by (rewrite app_length; reflexivity).
+  unfold byte_slice_from.
+  assert (Hle : Nat.leb (List.length p + List.length c) (List.length (p ++ t)) = true).
+  { apply Nat.leb_le. rewrite Es, !app_length. lia. }
+  rewrite Hle. cbn [bind].
+  replace (skipn (List.length p + List.length c) (p ++ t)) with (eol_bytes e ++ r)
+    by (rewrite Es, El, skipn_app_len; reflexivity).
+  rewrite (eol_starts_crlf e r He Hr).
+  unfold fm_slice.
+  assert (Hle2 : Nat.leb (List.length p) (List.length p + List.length c) = true) by (apply Nat.leb_le; lia).
+  rewrite Hle2, boundary_app. cbn [andb].
+  replace (is_char_boundary (p ++ t) (List.length p + List.length c)) with true
+    by (rewrite Es, El, boundary_app, bnd_eol; [reflexivity | exact He]).
+  rewrite andb_true_r. destruct (bnd p t); [|reflexivity]. cbn [bind].
+  replace (List.length p + List.length c - List.length p) with (List.length c) by lia.
+  rewrite skipn_app_len. rewrite Et at 1. rewrite firstn_app_len.
+  f_equal. f_equal.
+  destruct e; cbn [eol_bytes List.length].
+  - replace (Nat.ltb (List.length p + List.length c) (List.length (p ++ t))) with true; [lia|].
+    symmetry. apply Nat.ltb_lt. rewrite Es, !app_length. cbn [eol_bytes List.length]. lia.
+  - lia.
+  - replace (Nat.ltb (List.length p + List.length c) (List.length (p ++ t))) with true; [lia|].
+    symmetry. apply Nat.ltb_lt. rewrite Es, !app_length. cbn [eol_bytes List.length]. lia.
+  - replace (Nat.ltb (List.length p + List.length c) (List.length (p ++ t))) with false; [lia|].
+    symmetry. apply Nat.ltb_ge. rewrite Es, (He eq_refl), !app_length. cbn [eol_bytes List.length]. lia.
+Qed.
+
+Lemma line_at_okP p t c e r : cut_line t = (c, e, r) -> line_start p \/ t = [] ->
+  okP (p ++ t) (fm_line_at (p ++ t) (List.length p))
+      (fun v => v = (c, List.length p + List.length c + List.length (eol_bytes e))).
+Proof.
+  intros C L. rewrite (line_at_app p t c e r C).
+  destruct (bnd_line_start p t L) as [-> | Hb].
+  - left. eexists. split; reflexivity.
+  - destruct (bnd p t); [left; eexists; split; reflexivity|].
+    right. split; [exact Hb | eexists; reflexivity].
+Qed.
+
+(* ------------------------------------------------------------------------------------------------ *)
+(* Part 3a: the loop is find_closer *)
+
+Definition good_pos (s : bytes) (n : nat) : Prop :=
+  exists q r, s = q ++ r /\ n = List.length q /\ (line_start q \/ r = []).
+
+Definition closing_expected (d : bytes) (p t : bytes) : option nat :=
+  match find_closer d (lines t) with
+  | None => None
+  | Some (body, _) => Some (List.length p + List.length (join body))
+  end.
+
+Lemma find_closing_okP d : forall fuel p t, List.length t < fuel -> line_start p \/ t = [] ->
+  okP (p ++ t) (find_closing_line fuel (p ++ t) d (List.length p))
+      (fun v => (forall n, v = Some n -> good_pos (p ++ t) n) /\ (d <> [] -> v = closing_expected d p t)).
+Proof.
+  induction fuel as [|f IH]; intros p t Hf L; [lia|].
+  cbn [find_closing_line].
+  destruct t as [|b0 t0] eqn:Et.
+  { rewrite app_nil_r, Nat.eqb_refl. left. exists None. split; [reflexivity|]. split; [discriminate|].
+    intro Hd. unfold closing_expected. cbn [lines]. rewrite (find_closer_nil_line d Hd). reflexivity. }
+  rewrite <- Et in *. assert (Tn : t <> []) by (rewrite Et; discriminate). clear Et b0 t0.
+  replace (Nat.eqb (List.length p) (List.length (p ++ t))) with false
+    by (symmetry; apply Nat.eqb_neq; rewrite app_length; destruct t; [congruence | cbn [List.length]; lia]).
+  destruct (cut_line t) as [[c e] r] eqn:C.
+  destruct (cut_line_facts _ _ _ _ C) as [Ect [_ [He _]]].
+  pose proof (cut_line_nonempty _ _ _ _ C Tn) as Hlen.
+  eapply okP_bind; [apply (line_at_okP p t c e r C L)|].
+  intros v ->. cbn [fst snd].
+  set (q := p ++ c ++ eol_bytes e).
+  assert (Es : p ++ t = q ++ r) by (unfold q; rewrite Ect, <- !app_assoc; reflexivity).
+  assert (En : List.length p + List.length c + List.length (eol_bytes e) = List.length q)
+    by (unfold q; rewrite !app_length; lia).
+  assert (Lq : line_start q \/ r = []).
+  { destruct (terminated e) eqn:T; [left; apply line_start_eol; exact T|].
+    right. apply He. destruct e; try discriminate T; reflexivity. }
+  assert (Hl : lines t = (c, e) :: rest_lines e r) by (rewrite lines_cut, C; reflexivity).
+  destruct (bytes_eqb c d) eqn:E.
+  - left. eexists. split; [reflexivity|]. split.
+    + intros n [= <-]. exists q, r. split; [exact Es | split; [exact En | exact Lq]].
+    + intros _. unfold closing_expected. rewrite Hl. cbn [find_closer]. rewrite E.
+      rewrite join_cons. cbn [join flat_map]. rewrite app_nil_r, app_length. f_equal. lia.
+  - rewrite En, Es.
+    assert (Hf' : List.length r < f) by lia.
+    eapply okP_weaken; [|apply (IH q r Hf' Lq)].
+    intros v [G2 G3]. split.
+    + exact G2.
+    + intro Hd. rewrite (G3 Hd). unfold closing_expected. rewrite Hl. cbn [find_closer]. rewrite E.
+      unfold rest_lines. destruct (terminated e) eqn:T.
+      * destruct (find_closer d (lines r)) as [[a b]|]; [|reflexivity].
+        f_equal. rewrite join_cons, !app_length. unfold q. rewrite !app_length. lia.
+      * assert (r = []) as -> by (apply He; destruct e; try discriminate T; reflexivity).
+        cbn [lines]. rewrite (find_closer_nil_line d Hd). reflexivity.
+Qed.
+
+(* ------------------------------------------------------------------------------------------------ *)
+(* Part 3b: the function is the specification *)
+
+Lemma eol_len_zero e n : Nat.eqb (0 + n + List.length (eol_bytes e)) n = negb (terminated e).
+Proof.
+  destruct e; cbn [eol_bytes List.length terminated negb].
+  1-3: apply Nat.eqb_neq; lia.
+  apply Nat.eqb_eq. lia.
+Qed.
+
+Lemma final_cut_okP s a b : s = a ++ b -> line_start a \/ b = [] ->
+  okP s (do fm <- slice_to s (List.length a); do rest <- slice_from s (List.length a); Ok (Some (fm, rest)))
+      (fun v => v = Some (a, b)).
+Proof.
+  intros -> L. rewrite slice_to_app, slice_from_app.
+  destruct (bnd_line_start a b L) as [-> | Hb].
+  - left. eexists. split; reflexivity.
+  - destruct (bnd a b); [left; eexists; split; reflexivity|].
+    right. split; [exact Hb | eexists; reflexivity].
+Qed.
+
+Lemma join_nil : join (@nil (bytes * eol)%type) = [] .
+Proof. reflexivity. Qed.
+
+(* what the specification absorbs after the closing line, read off the first line of the following text *)
+Lemma absorb_join ec r1 c' e' r' : (ec = EEOF -> r1 = []) -> cut_line r1 = (c', e', r') ->
+  let (bl, after') := absorb_blank (rest_lines ec r1) in
+  (join bl, join after') = match c' with [] => (eol_bytes e', r') | _ :: _ => ([], r1) end.
+Proof.
+  intros Hec C. destruct (cut_line_facts _ _ _ _ C) as [_ [_ [He' _]]].
+  unfold rest_lines at 1. destruct (terminated ec) eqn:Tc.
+  - pose proof (join_lines r1) as J. rewrite lines_cut, C in *. destruct c' as [|h c'].
+    + unfold absorb_blank. destruct (terminated e') eqn:T.
+      * unfold rest_lines. rewrite T, join_cons, join_nil, join_lines, app_nil_r. reflexivity.
+      * assert (e' = EEOF) as -> by (destruct e'; try discriminate T; reflexivity).
+        rewrite (He' eq_refl). reflexivity.
+    + unfold absorb_blank. rewrite J. reflexivity.
+  - assert (ec = EEOF) as Eec by (destruct ec; try discriminate Tc; reflexivity).
+    rewrite (Hec Eec) in C. injection C as <- <- <-. reflexivity.
+Qed.
+
+Theorem split_okP s0 d : delim_ok d = true ->
+  okP (strip_bom s0) (split_off_front_matter s0 d) (fun v => v = spec_split s0 d).
+Proof.
+  intro Hd. destruct (delim_ok_clean d Hd) as [_ Dn].
+  unfold split_off_front_matter. rewrite trim_is_strip_bom.
+  unfold spec_split, spec_split_gen. rewrite Hd. cbn [negb].
+  set (s := strip_bom s0).
+  destruct (cut_line s) as [[c0 e0] r0] eqn:C0.
+  destruct (cut_line_facts _ _ _ _ C0) as [Es0 _].
+  rewrite lines_cut, C0.
+  eapply okP_bind; [exact (line_at_okP [] s c0 e0 r0 C0 (or_introl (or_introl eq_refl)))|].
+  intros v ->. cbn [fst snd app List.length].
+  rewrite eol_len_zero, <- negb_andb.
+  destruct (bytes_eqb c0 d && terminated e0) eqn:E0; cbn [negb];
+    [|left; eexists; split; reflexivity].
+  apply andb_true_iff in E0. destruct E0 as [E0 T0].
+  unfold rest_lines. rewrite T0.
+  set (p1 := c0 ++ eol_bytes e0).
+  assert (Es : s = p1 ++ r0) by (unfold p1; rewrite <- app_assoc; exact Es0).
+  assert (En : 0 + List.length c0 + List.length (eol_bytes e0) = List.length p1)
+    by (unfold p1; rewrite app_length; lia).
+  assert (L1 : line_start p1) by (apply (line_start_eol [] c0 e0 T0)).
+  clearbody s. clear Es0. subst s. rewrite En.
+  assert (Hf : List.length r0 < S (List.length (p1 ++ r0))) by (rewrite app_length; lia).
+  eapply okP_bind; [apply (find_closing_okP d _ p1 r0 Hf (or_introl L1))|].
+  intros v [G2 G3]. specialize (G3 Dn). unfold closing_expected in G3.
+  destruct (find_closer d (lines r0)) as [[body after]|] eqn:F; subst v;
+    [|left; eexists; split; reflexivity].
+  destruct (find_closer_lines d _ r0 body after (le_n _) F) as [ec [r1 [Er0 [Haf Hec]]]].
+  destruct (G2 _ eq_refl) as [q [rq [Eq [Nq Lq]]]].
+  assert (Eq2 : q = p1 ++ join body /\ rq = r1).
+  { apply app_eq_len; [rewrite <- Eq, Er0, <- app_assoc; reflexivity|].
+    rewrite <- Nq, app_length. reflexivity. }
+  destruct Eq2 as [Eq2 ->]. rewrite Nq, Eq. clear Hf G2.
+  destruct (cut_line r1) as [[c' e'] r'] eqn:C1.
+  destruct (cut_line_facts _ _ _ _ C1) as [Er1 [_ [He' _]]].
+  eapply okP_bind; [apply (line_at_okP q r1 c' e' r' C1 Lq)|].
+  intros v ->. cbn [fst snd].
+  (* the value the specification gives *)
+  assert (Jfm : forall bl, join ((c0, e0) :: body ++ bl) = q ++ join bl).
+  { intro bl. rewrite join_cons, join_app, Eq2. unfold p1. rewrite <- !app_assoc. reflexivity. }
+  pose proof (absorb_join ec r1 c' e' r' Hec C1) as Ab. rewrite <- Haf in Ab.
+  destruct (absorb_blank after) as [bl after'].
+  destruct c' as [|h c'].
+  - (* a blank line (or nothing) follows the closing line *)
+    cbn [List.length] in *. rewrite Nat.add_0_r.
+    replace (List.length q + List.length (eol_bytes e')) with (List.length (q ++ eol_bytes e'))
+      by (rewrite app_length; reflexivity).
+    assert (Esq' : q ++ r1 = (q ++ eol_bytes e') ++ r') by (rewrite Er1, <- app_assoc; reflexivity).
+    assert (L' : line_start (q ++ eol_bytes e') \/ r' = []).
+    { destruct (terminated e') eqn:T; [left; apply (line_start_eol q [] e' T)|].
+      right. apply He'. destruct e'; try discriminate T; reflexivity. }
+    eapply okP_weaken; [|apply (final_cut_okP _ _ _ Esq' L')].
+    intros v ->. rewrite Jfm. injection Ab as -> ->. reflexivity.
+  - (* text follows: nothing is absorbed *)
+    eapply okP_weaken; [|apply (final_cut_okP _ q r1 eq_refl Lq)].
+    intros v ->. rewrite Jfm. injection Ab as -> ->. rewrite app_nil_r. reflexivity.
+Qed.
+
+(* ------------------------------------------------------------------------------------------------ *)
+(* Part 4: consequences *)
+
+(* the full statement of C20 for the splitter: on every Rust str, for every well-formed delimiter *)
 Definition split_vs_spec_full_statement : Prop :=
-  forall s d, delim_ok d = true -> split_off_front_matter s d = Ok (spec_split s d).
+  forall s d, utf8_valid s = true -> delim_ok d = true -> split_off_front_matter s d = Ok (spec_split s d).
+
+Theorem split_vs_spec : split_vs_spec_full_statement.
+Proof.
+  intros s d V Hd. destruct (okP_utf8 _ _ _ (split_okP s d Hd)) as [v [-> ->]]; [|reflexivity].
+  rewrite <- trim_is_strip_bom. apply trim_valid. exact V.
+Qed.
+
+(* on arbitrary bytes: whatever is returned is what the specification says *)
+Theorem split_ok_is_spec s d r : delim_ok d = true -> split_off_front_matter s d = Ok r -> r = spec_split s d.
+Proof. intros Hd H. exact (okP_ok _ _ _ _ (split_okP s d Hd) H). Qed.
+
+(* ... and the only other outcome is a Panic at a line start that is not a char boundary: never on a str *)
+Theorem split_ok_or_not_utf8 s d : delim_ok d = true ->
+  split_off_front_matter s d = Ok (spec_split s d) \/
+  (utf8_valid s = false /\ exists site, split_off_front_matter s d = Panic site).
+Proof.
+  intro Hd. destruct (split_okP s d Hd) as [[v [-> ->]] | [Hb Hp]]; [left; reflexivity|].
+  right. split; [|exact Hp].
+  destruct (utf8_valid s) eqn:V; [|reflexivity]. exfalso.
+  apply (bad_start_not_utf8 _ Hb). rewrite <- trim_is_strip_bom. apply trim_valid. exact V.
+Qed.
+
+Lemma split_never_out_of_fuel s d : delim_ok d = true -> split_off_front_matter s d <> OutOfFuel.
+Proof. intros Hd H. destruct (split_ok_or_not_utf8 s d Hd) as [E | [_ [site E]]]; rewrite E in H; discriminate. Qed.
+
+(* the slice checks are real: off UTF-8 the model does panic *)
+Lemma split_panics_off_boundary :
+  exists s d site, delim_ok d = true /\ split_off_front_matter s d = Panic site.
+Proof. exists (B "-" ++ [x0a; xa9]), (B "-"). eexists. split; vm_compute; reflexivity. Qed.
+
+(* soundness, from the specification: the pieces are a split of the (BOM-stripped) input, and the front
+   matter is the delimiter line, body lines none of which is the delimiter, the delimiter line, and at most
+   one blank line *)
+Definition fm_shape (d fm : bytes) : Prop :=
+  exists e0 body ec bl,
+    terminated e0 = true /\ (forall l, In l body -> bytes_eqb (fst l) d = false) /\
+    (bl = [] \/ exists e, terminated e = true /\ bl = [([], e)]) /\
+    (terminated ec = false -> bl = []) /\
+    fm = join ((d, e0) :: body ++ (d, ec) :: bl).
+
+Lemma spec_split_sound s d fm rest : spec_split s d = Some (fm, rest) ->
+  strip_bom s = fm ++ rest /\ fm_shape d fm.
+Proof.
+  unfold spec_split, spec_split_gen. destruct (negb (delim_ok d)); [discriminate|].
+  pose proof (join_lines (strip_bom s)) as J.
+  destruct (lines (strip_bom s)) as [|[c0 e0] ls] eqn:El; [discriminate|].
+  destruct (bytes_eqb c0 d && terminated e0) eqn:E0; [|discriminate].
+  apply andb_true_iff in E0. destruct E0 as [E0 T0]. apply bytes_eqb_eq in E0. subst c0.
+  destruct (find_closer d ls) as [[body after]|] eqn:F; [|discriminate].
+  destruct (find_closer_some d ls body after F) as [pre [ec [-> [-> Hpre]]]].
+  destruct (absorb_blank after) as [bl after'] eqn:Ab.
+  pose proof (absorb_app _ _ _ Ab) as Haf.
+  intros [= <- <-].
+  change (join1 (d, e0) ++ join ((pre ++ [(d, ec)]) ++ bl)) with (join ((d, e0) :: (pre ++ [(d, ec)]) ++ bl)).
+  split.
+  - rewrite <- J, Haf, <- join_app. f_equal. cbn [app]. rewrite <- !app_assoc. reflexivity.
+  - exists e0, pre, ec, bl. split; [exact T0|]. split; [exact Hpre|]. split; [|split].
+    + unfold absorb_blank in Ab. destruct after as [|[[|h c] e] r]; try (injection Ab as <- <-; left; reflexivity).
+      destruct (terminated e) eqn:T; injection Ab as <- <-; [right; exists e; split; [exact T | reflexivity] | left; reflexivity].
+    + intro Tc. pose proof (lines_wf (strip_bom s)) as W. rewrite El in W.
+      assert (after = []) as ->.
+      { change ((d, e0) :: pre ++ (d, ec) :: after) with (((d, e0) :: pre) ++ (d, ec) :: after) in W.
+        destruct ec; try discriminate Tc. exact (wf_eof_last _ _ _ W). }
+      injection Ab as <- _. reflexivity.
+    + rewrite <- app_assoc. reflexivity.
+Qed.
+
+Theorem split_sound s d fm rest : delim_ok d = true ->
+  split_off_front_matter s d = Ok (Some (fm, rest)) ->
+  strip_bom s = fm ++ rest /\ fm_shape d fm.
+Proof. intros Hd H. apply spec_split_sound. symmetry. exact (split_ok_is_spec s d _ Hd H). Qed.
+
+(* ------------------------------------------------------------------------------------------------ *)
+(* the witnesses that refuted model = spec before the repair (known_findings F9, F10, F11, C20-a) *)
 
 Definition w_d : bytes := Eval compute in B "---".
-(* F9: d LF a LF d LF body LF d CR LF more — the later CRLF closer wins, the body is swallowed *)
+(* F9: d LF a LF d LF body LF d CR LF more — a later CRLF closer used to win *)
 Definition w_f9 : bytes := Eval compute in
   B "---" ++ [x0a] ++ B "a" ++ [x0a] ++ B "---" ++ [x0a] ++ B "body" ++ [x0a] ++ B "---" ++ [x0d; x0a] ++ B "more".
-(* F10: d LF foo LF d x LF d — the line d x hides the closer at end of input *)
+(* F10: d LF foo LF d x LF d — the line d x used to hide the closer at end of input *)
 Definition w_f10 : bytes := Eval compute in
   B "---" ++ [x0a] ++ B "foo" ++ [x0a] ++ B "---x" ++ [x0a] ++ B "---".
 (* F11: d CR fm CR d CR text CR — CR-only line endings *)
 Definition w_f11 : bytes := Eval compute in
   B "---" ++ [x0d] ++ B "fm" ++ [x0d] ++ B "---" ++ [x0d] ++ B "text" ++ [x0d].
-(* F25: d LF d LF text LF — empty front matter *)
+(* F25 / C20-a: d LF d LF text LF — empty front matter *)
 Definition w_f25 : bytes := Eval compute in
   B "---" ++ [x0a] ++ B "---" ++ [x0a] ++ B "text" ++ [x0a].
-
-Lemma split_vs_spec_later_crlf_refuted :
-  exists fm rest fm' rest',
-    split_off_front_matter w_f9 w_d = Ok (Some (fm, rest)) /\
-    spec_split w_f9 w_d = Some (fm', rest') /\
-    List.length fm' < List.length fm /\ fm_class w_f9 w_d = 3%N.
-Proof. do 4 eexists. split; [vm_compute; reflexivity|]. split; [vm_compute; reflexivity|]. split; [vm_compute; lia | vm_compute; reflexivity]. Qed.
-
-Lemma split_vs_spec_prefix_line_refuted :
-  split_off_front_matter w_f10 w_d = Ok None /\
-  spec_split w_f10 w_d = Some (w_f10, []) /\ fm_class w_f10 w_d = 4%N.
-Proof. repeat split; vm_compute; reflexivity. Qed.
-
-Lemma split_vs_spec_cr_only_refuted :
-  split_off_front_matter w_f11 w_d = Ok None /\
-  (exists fm rest, spec_split w_f11 w_d = Some (fm, rest)) /\ fm_class w_f11 w_d = 1%N.
-Proof. split; [vm_compute; reflexivity|]. split; [do 2 eexists; vm_compute; reflexivity | vm_compute; reflexivity]. Qed.
-
-Lemma split_vs_spec_empty_fm_refuted :
-  split_off_front_matter w_f25 w_d = Ok None /\
-  (exists fm rest, spec_split w_f25 w_d = Some (fm, rest)) /\ fm_class w_f25 w_d = 2%N.
-Proof. split; [vm_compute; reflexivity|]. split; [do 2 eexists; vm_compute; reflexivity | vm_compute; reflexivity]. Qed.
-
-Lemma split_vs_spec_refuted : ~ split_vs_spec_full_statement.
-Proof.
-  intro H. specialize (H w_f10 w_d eq_refl).
-  destruct split_vs_spec_prefix_line_refuted as [A [Bq _]]. rewrite A, Bq in H. discriminate.
-Qed.
